@@ -11,6 +11,7 @@ mod hs;
 mod pipe;
 mod pure;
 mod transport;
+mod twoparty;
 mod util;
 
 use std::io::Write;
@@ -63,6 +64,7 @@ fn run_block(lines: &[String], out: &mut String) {
     }
     match fam.as_str() {
         "hs-server" | "hs-client" => hs::run_case(lines, out),
+        "twoparty" => twoparty::run_case(lines, out),
         _ => endpoint::run_case(lines, out),
     }
 }
@@ -104,6 +106,13 @@ fn main() {
                     let c = gen::gen_endpoint(&mut r, prof, i);
                     let mut out = String::new();
                     run_block(&c, &mut out);
+                    so.write_all(out.as_bytes()).unwrap();
+                }
+            } else if fam == "tp" {
+                for i in 0..count {
+                    let mut r = rng.fork();
+                    let mut out = String::new();
+                    twoparty::gen_and_run(&mut r, i, &mut out);
                     so.write_all(out.as_bytes()).unwrap();
                 }
             } else if fam == "ep:pipe" {
